@@ -6,6 +6,7 @@ from ..astutil import text, short, endswith, calls_in, walk_no_nested, names_loa
 from ..dataflow import DefUse
 from .. import events as E
 from .. import types as T
+from ..guards import guarded_by, text_atom
 
 EXPLANATION = (
   "Decides that engine state and stored actions cannot drift apart structurally: one gateway "
@@ -180,6 +181,19 @@ def _is_flusher(w, fi):
   return False
 
 
+def _flag_writes(cfg, attr):
+  """CFG nodes that assign self.<attr>."""
+  out = set()
+  for n in cfg.nodes:
+    if n.kind == "stmt" and isinstance(n.stmt, (ast.Assign, ast.AugAssign)):
+      tg = n.stmt.targets if isinstance(n.stmt, ast.Assign) else [n.stmt.target]
+      for t in tg:
+        for x in ast.walk(t):
+          if isinstance(x, ast.Attribute) and x.attr == attr:
+            out.add(n.id)
+  return out
+
+
 def r4_flush(run, w):
   R4 = run.rule("C02-R4", "every update loop is followed, on normal and exceptional paths, by a "
                 "flush of _changes_map; the map is never rebound or cleared unflushed", floor=4)
@@ -228,13 +242,9 @@ def r4_flush(run, w):
       if isinstance(c.func, ast.Attribute) and c.func.attr == "_recompute_step":
         ok = f.qualname in ("engine.Engine._update_loop", "engine.Engine._recompute")
         if f.qualname == "engine.Engine._recompute":
-          # only on the branch where an update loop is already running
-          tests = {m.id for m in fn.cfg.nodes if m.kind == "if" and
-                   text(m.stmt.test) == "self._in_update_loop"}
-          ok = bool(tests) and fn.cfg.dominated_by(n.id, tests) and \
-              any(n.id in fn.cfg.reach({x.id for x in fn.cfg.nodes
-                                        if x.stmt in fn.cfg.nodes[t].stmt.body})
-                  for t in tests)
+          # only on the branch where an update loop is already running (any spelling of the guard)
+          ok = guarded_by(fn.cfg, n.id, text_atom("self._in_update_loop"), True,
+                          kills=_flag_writes(fn.cfg, "_in_update_loop"))
         run.ob(R4, f.qualname, short(c), "_recompute_step runs inside an update loop only", ok,
                fi=f, node=c)
   # (c) kills of _changes_map: dominated by a flush in the same function, or the function is
@@ -272,10 +282,8 @@ def r4_flush(run, w):
   if not calls:
     raise AnalysisError("apply_doc_action no longer calls _bring_mlookups_up_to_date")
   for (n, c) in calls:
-    guards = {m.id for m in cfg.nodes if m.kind == "if" and
-              text(m.stmt.test) == "not self._in_update_loop"}
-    ok = bool(guards) and cfg.dominated_by(n.id, guards) and \
-        all(c in [x for b in cfg.nodes[g].stmt.body for x in ast.walk(b)] for g in guards)
+    ok = guarded_by(cfg, n.id, text_atom("self._in_update_loop"), False,
+                    kills=_flag_writes(cfg, "_in_update_loop"))
     run.ob(R4, ad.qualname, short(c), "metadata-lookup frame is opened only outside update loops "
            "(a nested frame would discard the outer loop's recorded changes)", ok, fi=ad.fi, node=c)
 
